@@ -6,6 +6,7 @@ import (
 	"fmt"
 	"sort"
 	"strings"
+	"time"
 
 	"github.com/hashicorp/eventlogger"
 	"pgregory.net/rapid"
@@ -14,13 +15,23 @@ import (
 	"verif/harness/internal/sched"
 )
 
+// The name pools contain families of names that are distinct strings but collide under careless normalisation:
+// surrounding white space, case, white-space-only names, a separator moved between event type and pipeline id
+// ("A/x"+"p0" vs "A"+"x/p0"), names longer than 255 bytes, and a name of few characters but many bytes.
 var (
-	Types   = []string{"A", "A", "A", "A", "B", "B", "C"}
-	PipeIDs = []string{"p0", "p1", "p2", "p3"}
+	Types   = []string{"A", "A", "A", "A", "A", "A", "A", "B", "B", "B", "B", "C", "C", "A ", " A", "a", "A/x", "\t", LongASCII, LongMultiByte}
+	PipeIDs = []string{"p0", "p1", "p2", "p3", "p0 ", "P0", "x/p0", " "} // with distinct roots the index selects the root node as well
 	Filters = []string{"f0", "f1", "f2"}
 	Fmts    = []string{"m0", "m1"}
 	Sinks   = []string{"s0", "s1"}
-	Roots   = []string{"r0", "r1", "r2", "r3"}
+	Roots   = []string{"r0", "r1", "r2", "r3", "r4", "r5", "r6", "r7"}
+
+	LongASCII     = "T" + strings.Repeat("long-event-type-", 20) // 321 bytes
+	LongMultiByte = strings.Repeat("\u00e9\u4e8b", 14)           // 28 characters, 70 bytes
+	// UnknownTypes are never registered: a Send of such a type must fail cleanly.
+	UnknownTypes = []string{"Z", "Z ", strings.Repeat("\u4e8b\u4ef6", 15), strings.Repeat("\u00e9", 40), strings.Repeat("\U0001F600", 17), strings.Repeat("z", 300), "z\xff\xfe", ""}
+	// StopTimes are the instants the Broker's clock may be stopped at (never the zero time: a creation time is promised).
+	StopTimes = []time.Time{time.Date(2100, 1, 1, 0, 0, 0, 0, time.UTC), time.Date(1999, 12, 31, 23, 59, 59, 0, time.FixedZone("x", 3600)), time.Date(3000, 1, 1, 0, 0, 0, 0, time.UTC), time.Date(1600, 2, 29, 0, 0, 0, 1, time.UTC), time.Unix(0, 0)}
 )
 
 // IntendedType of a pool node id.
@@ -38,6 +49,8 @@ func IntendedType(id string) int {
 	}
 	return 0
 }
+
+func init() { model.StopTimes = StopTimes }
 
 func Pool() []string {
 	var p []string
@@ -142,6 +155,9 @@ func GenRegPipe(t *rapid.T, distinctRoots bool) model.Op {
 
 func GenSend(t *rapid.T, distinctRoots bool, cancelWeight int) *SendStep {
 	s := &SendStep{ET: rapid.SampledFrom(append(append([]string{}, Types...), "Z")).Draw(t, "sendET"), Script: map[string]nodes.Behav{}}
+	if rapid.IntRange(0, 11).Draw(t, "unknownType") == 0 {
+		s.ET = rapid.SampledFrom(UnknownTypes).Draw(t, "unknownET")
+	}
 	for _, id := range Pool() {
 		b := rapid.SampledFrom([]nodes.Behav{nodes.Pass, nodes.Pass, nodes.Pass, nodes.Pass, nodes.Pass, nodes.Pass, nodes.Replace, nodes.Replace, nodes.Drop, nodes.Drop, nodes.Fail, nodes.FailEv}).Draw(t, "b-"+id)
 		if distinctRoots && id[0] == 'r' {
@@ -185,7 +201,7 @@ func GenSend(t *rapid.T, distinctRoots bool, cancelWeight int) *SendStep {
 // GenSteps draws a history: registry mutations interleaved with Sends.
 func GenSteps(t *rapid.T, n int, distinctRoots bool, cancelWeight int) []Step {
 	stepGen := rapid.Custom(func(t *rapid.T) Step {
-		k := rapid.SampledFrom([]int{0, 0, 0, 0, 1, 1, 1, 1, 1, 2, 3, 4, 4}).Draw(t, "kind")
+		k := rapid.SampledFrom([]int{0, 0, 0, 0, 1, 1, 1, 1, 1, 2, 3, 4, 4, 0, 1, 1, 5}).Draw(t, "kind")
 		switch k {
 		case 0:
 			op := GenRegPipe(t, distinctRoots)
@@ -196,6 +212,8 @@ func GenSteps(t *rapid.T, n int, distinctRoots bool, cancelWeight int) []Step {
 			return Step{Op: &model.Op{K: "rmpipe", ET: rapid.SampledFrom(Types).Draw(t, "et"), P: rapid.SampledFrom(PipeIDs).Draw(t, "pid")}}
 		case 3:
 			return Step{Op: &model.Op{K: "rpan", ET: rapid.SampledFrom(Types).Draw(t, "et"), P: rapid.SampledFrom(PipeIDs).Draw(t, "pid"), CtxDone: rapid.IntRange(0, 4).Draw(t, "ctxDone") == 0}}
+		case 5:
+			return Step{Op: &model.Op{K: "stoptime", V: rapid.IntRange(0, len(StopTimes)-1).Draw(t, "stopTime")}}
 		default:
 			id := rapid.SampledFrom(Pool()).Draw(t, "nid")
 			op := model.Op{K: "regnode", N: id, NT: IntendedType(id), Shape: rapid.SampledFrom([]int{0, 0, 0, 1, 2, 3}).Draw(t, "shape"), Reuse: rapid.IntRange(0, 5).Draw(t, "reuse") == 0}
